@@ -1,13 +1,10 @@
 use h_lang::engine::*;
 fn main() {
-    let src = "pub fn f0(a: Int, p: Bool) -> Bool {\n({\nfail\n} && False)\n}\n".to_string();
+    let src = std::env::args().nth(1).unwrap();
     let w = Worker::new();
     let (proj, fns) = w.check_batch(&[src], silent()).unwrap();
     let _ = aiken_lang::verif_hooks::drain_pre_optimisation();
     let mut g = proj.generator(silent());
     let fin = g.generate_raw(&fns[0].body, &fns[0].arguments, "test_module");
-    let pre = aiken_lang::verif_hooks::drain_pre_optimisation();
-    println!("PRE ({}):\n{}", pre.len(), pre.last().unwrap().to_pretty());
-    println!("INTERNED:\n{}", h_lang::c02::interned(pre.last().unwrap()).to_pretty());
     println!("FIN:\n{}", fin.to_pretty());
 }
